@@ -351,6 +351,7 @@ type actor struct {
 	priv [nViews + 1]hkv.KVStore
 	own  bool
 	ncal int
+	ro   bool // issues read-only calls only
 }
 
 func (a *actor) handle(v int) hkv.KVStore {
@@ -374,6 +375,9 @@ func (a *actor) randomCall() *call {
 	a.ncal++
 	c := &call{}
 	x := r.Intn(100)
+	if a.ro { // Get / Has / Iterate / IterateKeys / Flush in their usual proportions
+		x = core.Pick(r, 24+r.Intn(20), 62+r.Intn(22), 62+r.Intn(22), 99)
+	}
 	switch {
 	case x < 24:
 		p := w.pairs[r.Intn(len(w.pairs))]
@@ -430,6 +434,7 @@ func (a *actor) randomCall() *call {
 
 type shape struct {
 	threads, calls, procs int
+	writers               int // goroutines that issue mutating calls (the others only read)
 	closing               bool
 }
 
@@ -443,14 +448,28 @@ func randomShape(r *rand.Rand) shape {
 	default:
 		s.threads, s.calls = core.Pick(r, 8, 12, 16), 2+r.Intn(2) // many goroutines, few calls each
 	}
+	s.writers = s.threads
+	if s.threads >= 8 {
+		// few writers among many readers: the number of placements TLC has to search grows with the number of
+		// mutating calls that are pending together, not with the number of goroutines
+		s.writers = 2 + r.Intn(3)
+	}
 	s.procs = core.Pick(r, 1, 2, 2, 4, 4, 8, 16, 16)
 	s.closing = r.Intn(12) == 0
 	return s
 }
 
+// closeAll (flag -closeall): every free-running history runs behind flushkv and has one goroutine that calls Close
+// (used to look for calls that race with Close; not part of the regular check).
+var closeAll bool
+
 func freeHistory(rng *rand.Rand, id int) (lines []core.Ev, finished bool) {
 	sh := randomShape(rng)
 	w := newWorld(core.Pick(rng, "none", "flush"))
+	if closeAll {
+		sh.closing = true
+		w = newWorld("flush")
+	}
 	w.randomPool(rng)
 	h := newHist(sh.threads)
 	runtime.GOMAXPROCS(sh.procs)
@@ -459,7 +478,7 @@ func freeHistory(rng *rand.Rand, id int) (lines []core.Ev, finished bool) {
 	var wg sync.WaitGroup
 	closer := 1 + rng.Intn(sh.threads)
 	for t := 1; t <= sh.threads; t++ {
-		a := &actor{w: w, t: t, r: rand.New(rand.NewSource(rng.Int63())), own: rng.Intn(2) == 0}
+		a := &actor{w: w, t: t, r: rand.New(rand.NewSource(rng.Int63())), own: rng.Intn(2) == 0, ro: t > sh.writers}
 		// the calls are drawn before the start so that the goroutines spend their time inside the store
 		calls := make([]*call, sh.calls)
 		for i := range calls {
@@ -781,6 +800,7 @@ func drive(args []string) int {
 	nforced := fs.Int("forced", 60, "forced schedules (iteration held in its consumer)")
 	nburst := fs.Int("bursts", 20, "unlogged bursts of 16 goroutines (race detector)")
 	wd := fs.Int("watchdog", 20, "seconds after which a history counts as hung")
+	fs.BoolVar(&closeAll, "closeall", false, "every free-running history: flushkv + one goroutine calling Close")
 	_ = fs.Parse(args)
 	watchdog = time.Duration(*wd) * time.Second
 	f, err := os.Create(*out)
@@ -804,7 +824,7 @@ func drive(args []string) int {
 		events += len(lines)
 	}
 	// forced schedules are spread between the free-running histories
-	for i := 0; i < *nfree || i < *nforced; i++ {
+	for i := 0; (i < *nfree || i < *nforced) && hangs < 3; i++ { // after 3 hung histories the verdict is clear
 		if i < *nforced {
 			id++
 			emit(forcedHistory(rng, id))
@@ -815,7 +835,7 @@ func drive(args []string) int {
 		}
 	}
 	bhangs := 0
-	for i := 0; i < *nburst; i++ {
+	for i := 0; i < *nburst && hangs+bhangs < 3; i++ {
 		if !burst(rng) {
 			bhangs++
 		}
